@@ -40,7 +40,7 @@ CHECKS = {
         text=("Random values of random types x 10 symmetric option sets are marshaled, unmarshaled into a zero value, marshaled again (and once more); TLC requires out1 valid, accepted by "
               "Unmarshal, out2 denoting the same tree as out1 (identical bytes under Deterministic) unless omit options are present, out3 = out2 always, and - where Go equality is meaningful - "
               "the decoded value equal to the original with nil/empty identified, floats by bit pattern and integers exactly. In addition the type-directed model spec/Arshal.tla (documented mapping between Go values and JSON for bool, string, float64, integers, slices, arrays, maps keyed by strings or integers, pointers, any, []byte and [N]byte in Base 64, time.Duration and time.Time in their decimal formats (sec..nano, unix..unixnano), and structs with omitzero/omitempty/string/case/format options and an embedded fallback map) is enumerated by TLC over a bounded universe of types, values, inputs and option sets (MC_Arshal) and every case is replayed on reflect-built types with the exact predicted bytes / Go value. On the model TLC proves RoundTrip (Unmarshal accepts Marshal(v), the second output is the same JSON value - a fixed point after one round with omit options - and the decoded value equals v up to nil/empty and values written as null) and ParseRender (the rendering reads back through the byte automaton)."),
-        note="Relational check between real executions with TLC deciding validity/meaning equality; Go-side equality is a projection fact. No exhaustive float32 sweep.",
+        note="Relational check between real executions with TLC deciding validity/meaning equality; Go-side equality is a projection fact. No exhaustive float32 sweep. The model includes the `format` options: RFC 4648 encodings and number lists for byte strings (general codec proved against the section-4 transcription by TLC), non-finite floats, emitnull/emitempty, ISO 8601 durations; Marshal bytes and Unmarshal results of that family are replayed.",
         design_ref="5 (C04)"),
     "C05": dict(
         technique="TLA+ Decoder state machine over the token table (reader schedule absent from the state); TLC-enumerated call programs replayed under all read compositions; TLC trace validation of faulted and long random executions",
@@ -50,7 +50,7 @@ CHECKS = {
               "composition of the input into reads (<= 9 bytes; single cuts, 1-byte, empty reads, data+EOF, bytes.Buffer otherwise) and compares call by call. Executions with "
               "injected transient read faults and retries, and long random programs over inputs sized around the 64..4096 buffer thresholds, are logged and validated by TLC "
               "(Trace_Decoder), including unread-buffer accounting and value-bytes identity."),
-        note="Bounded-exhaustive programs/schedules plus sampled long runs; PeekKind at the point where input ends or dies is left open; UnmarshalRead/UnmarshalDecode equivalence is decided in C03's check.",
+        note="Bounded-exhaustive programs/schedules plus sampled long runs; PeekKind at the point where input ends or dies is left open; UnmarshalRead/UnmarshalDecode equivalence of results is decided in C03's check; equality of the final error (kind, offset, pointer) of UnmarshalRead under reader cuts around the offending value with Unmarshal's is a clause of Trace_Arshal run here.",
         design_ref="5 (C05), 4.2"),
     "C14": dict(
         technique="TLA+ MergeTree on value trees; TLC validates that the driver's merged text is MergeTree(j1..jk) and the law chain == single unmarshal of the merged text; TLA+ model of Unmarshal's merge semantics per Go type (Arshal.tla): MergeLaw and FrameLaw model-checked by TLC, every (type, pre-existing value, input, options) replayed with the predicted Go value",
@@ -73,7 +73,7 @@ CHECKS = {
               "these predictions equal the stack of the byte automaton run on the consumed prefix. For every rejected call the logged SyntacticError offset and pointer are checked by "
               "TLC against OffsetOK/PointerOK (viable prefix, offending token, innermost value or its container, duplicated member). Pointer.tla's laws are checked exhaustively over "
               "token lists on {~,/,0,1,a} and replayed on jsontext.Pointer."),
-        note="Relational error predicates admit every position the property's wording admits; encoder positions are compared in C06's check; SemanticError positions in C03/C14 checks when built.",
+        note="Relational error predicates admit every position the property's wording admits; encoder positions after every call are compared with Encoder.tla (Trace_Encoder, also across write faults); SemanticError offsets and pointers of Unmarshal, their equality under UnmarshalRead, and Encoder.StackPointer as seen by caller-supplied marshal functions inside Marshal are clauses of Trace_Arshal decided with Decoder.tla's pointer of the place in the text.",
         design_ref="5 (C16), 4.2"),
     "C06": dict(
         technique="TLA+ Encoder state machine with rendered output; TLC invariant 'rendered output parses to exactly the model's frames'; exhaustive replay of TLC-enumerated WriteToken/WriteValue programs x option sets; TLC trace validation of long random programs",
@@ -179,6 +179,6 @@ CHECKS = {
               "ReadValue/SkipValue/IsValid/Unmarshal, Format/Compact/Canonicalize, WriteToken/WriteValue, Marshal - and TLC validates each logged outcome against the models instantiated with "
               "MaxD = 10000. Go heaps given as graphs (slices, maps, struct pointers, pointers) are marshaled in isolated child processes; Trace_C20 computes whether a cycle is reachable from "
               "the root and requires an error exactly then, and never a panic, crash or timeout. All other drivers log panics, which every trace spec rejects under C20."),
-        note="Known finding K2 (pointer/interface-only cycle overflows the stack) is listed in known_findings.json. Documented misuse panics are not provoked. Non-termination = 120 s timeout.",
+        note="The pointer/interface-only cycle that overflowed the stack (formerly K2) and the panic on excess padding in base32 data were repaired (fix: commits edc6f01, 75d5e79). Documented misuse panics are not provoked. Non-termination = 120 s timeout. Ill-formed encoded texts of the Arshal model's format family are replayed here: a panic is a mismatch with the predicted outcome.",
         design_ref="5 (C20)"),
 }
